@@ -2,6 +2,17 @@
 import json, sys
 pid, wt = sys.argv[1], sys.argv[2]
 n = int(sys.argv[3]) if len(sys.argv) > 3 else 3
+import glob, os, re
+avoid = []
+for d in sorted(glob.glob('/verif/seeded/%s_[mh]*' % pid)):
+    try:
+        summ = json.load(open(d + '/meta.json')).get('summary', '')
+        avoid.append('   - ' + re.sub(r'\s+', ' ', summ)[:160])
+    except Exception:
+        pass
+avoid_txt = ''
+if avoid and os.environ.get('WAVE_AVOID', '1') == '1':
+    avoid_txt = '\nALREADY DONE by others (do NOT repeat these sites or near-copies of them; pick other functions, branches, dimensions or mechanisms of the property):\n' + '\n'.join(avoid) + '\n'
 for l in open('/verif/properties.jsonl'):
     p = json.loads(l)
     if p['id'] == pid:
@@ -14,6 +25,7 @@ Quantified over: {p['quantifier']['text']}
 Code it is anchored in: {', '.join(p['anchors']['files'])}
 Mechanisms: {'; '.join(m['name'] + ' @ ' + m.get('where','') for m in p['anchors']['mechanism'])}
 
+{avoid_txt}
 TASK: produce {n} DIFFERENT source changes (mutants) to dadi, each of which
  (a) breaks the property above for some inputs, 
  (b) still imports/compiles, and keeps the ENTIRE existing test suite passing, and
